@@ -388,6 +388,8 @@ def queue_helpers(ctx):
     R5 = 'C05.H'
     LQ = 'labeled_queues::LabeledQueue::<T, L>::'
     for cfg in ('dev', 'rel'):
+        if ctx.crate(cfg).fn(LQ + 'edge_iter') is None:
+            continue        # no iterator type: the walk is checked where make_path does it (C05.R4, make_path_by_hand)
         an = analyse(ctx, cfg, LQ + 'edge_iter', [])
         for o in an.rets:
             t = an.ip.to_term(o.state, o.value)
